@@ -4179,6 +4179,7 @@ py_statements = [
             "if ({hnamefunc0}\t({pytmp_var}, &{value_var}) == 0)",
             "+goto fail;-",
             "{cxx_var} = {cast_static}char **{cast1}{value_var}.data{cast2};",
+            "{size_var} = {value_var}.size;",
         ],
         arg_call=["{cxx_var}"],
         post_call=[
